@@ -623,6 +623,12 @@ def model_graphs(kind):
         H.add_edge("I", "R", rate=0.5)
         J.add_edge(("I", "S"), ("I", "E"), rate=1.0, rate_function=sc_edge_rate)
         return H, J, ["S", "E", "I", "R"]
+    if kind == "SIRS0":     # a transition switched off with rate exactly 0 (first point of a parameter sweep)
+        H.add_edge("I", "R", rate=0.5)
+        H.add_edge("R", "S", rate=0)
+        J.add_edge(("I", "S"), ("I", "I"), rate=1.0)
+        J.add_edge(("R", "S"), ("R", "I"), rate=0.0)
+        return H, J, ("S", "I", "R")
     if kind == "SIS":
         H.add_edge("I", "S", rate=1.0)
         J.add_edge(("I", "S"), ("I", "I"), rate=1.0)
@@ -1134,7 +1140,7 @@ def _special_builders(tier):
 
     # contagion simulators -----------------------------------------------------------------
     for g in sgraphs:
-        for model in ("SIR", "SIRw", "SEIRf", "SIS"):
+        for model in ("SIR", "SIRw", "SEIRf", "SIS", "SIRS0"):
             for ickind in ("dict", "defaultdict"):
                 for full in fulls:
                     for entry in ("Gillespie_simple_contagion", "Gillespie_Arbitrary"):
